@@ -120,7 +120,8 @@ Definition mismatches (cs : list ecase) : list (nat * (nat * nat)) :=
     required confirmation blocks separate them (numerically); 22 accepted although the world whose root
     is stored at the proof height does not hold this 32-byte value at the slot of this path in the
     configured contract; 23 an honest proof of a held value, same revision as the head, confirmations
-    passed, was not accepted. *)
+    passed, was not accepted; 24 accepted although the decoded proof record does not carry exactly one
+    storage proof. *)
 Definition numeric_ok (c : ecase) (delay : N) : bool :=
   match c_height c with
   | Some h => (rh h <=? rh (c_head c)) && (delay <=? rh (c_head c) - rh h)
@@ -133,9 +134,17 @@ Definition same_revision (c : ecase) : bool :=
 Definition gt_holds (c : ecase) : bool :=
   match c_gt_word c with Some w => bytes_eqb w (c_commitment c) | None => false end.
 
+(** the decoded proof record carries exactly one (non-null) storage proof *)
+Definition one_storage_proof (c : ecase) : bool :=
+  match c_json c with
+  | Some r => match p_storage_proof r with [Some _] => true | _ => false end
+  | None => false
+  end.
+
 Definition accept_ok (c : ecase) (delay : N) : list nat :=
   (if numeric_ok c delay then [] else [21%nat]) ++
-  (if Nat.eqb (length (c_commitment c)) 32 && negb (gt_holds c) then [22%nat] else []).
+  (if Nat.eqb (length (c_commitment c)) 32 && negb (gt_holds c) then [22%nat] else []) ++
+  (if one_storage_proof c then [] else [24%nat]).
 
 Definition mon_copy (c : ecase) (delay : N) (class : nat) : list nat :=
   if Nat.eqb class 0 then accept_ok c delay
